@@ -335,7 +335,7 @@ def main(argv):
     if bounded is not None and exit_code == 0:
         exempt = set(spec.get("no_witness", []))
         for k in keys:
-            if bounded["post_checked"].get(k, 0) == 0 and k not in exempt and k in bounded["installed"]:
+            if bounded["pre_ok"].get(k, 0) == 0 and k not in exempt and k in bounded["installed"]:
                 never.append(k)
         if never:
             exit_code = 3
